@@ -379,6 +379,14 @@ func (g *GateInst) Apply(op string) (string, string) {
 	}
 	before := g.groups
 	g.groups = kept
+	// ---- C11 and C17: FlushAll/Close hand over every withheld event ----
+	if !failureFired && (r.kind == "flushall" || r.kind == "close") && r.err == nil && len(g.groups) != 0 {
+		var left []string
+		for _, gr := range g.groups {
+			left = append(left, fmt.Sprintf("%s%v", gr.id, gr.seqs))
+		}
+		return bad("%s returned nil but %d group(s) remain gated and were not handed to composition: %v (held before: %d)", r.kind, len(g.groups), left, len(before))
+	}
 	// ---- C17: no lingering ----
 	if g.C17 && !failureFired {
 		if sweeping && r.err == nil {
@@ -386,15 +394,6 @@ func (g *GateInst) Apply(op string) (string, string) {
 				if expired(gr) {
 					return bad("after a successful Process at T the group of id %q (events %v) opened %v before T is still gated although it expired (Expiration %v)", gr.id, gr.seqs, time.Duration(now-gr.openAt), gateExpiration)
 				}
-			}
-		}
-		if (r.kind == "flushall" || r.kind == "close") && r.err == nil {
-			if len(g.groups) != 0 {
-				var left []string
-				for _, gr := range g.groups {
-					left = append(left, fmt.Sprintf("%s%v", gr.id, gr.seqs))
-				}
-				return bad("%s returned nil but %d group(s) remain gated: %v (held before: %d)", r.kind, len(g.groups), left, len(before))
 			}
 		}
 		// emitted oldest first: compositions of this step (other than the own flush) follow opening order
